@@ -26,7 +26,6 @@ import (
 	"context"
 	"encoding/json"
 	"fmt"
-	"os"
 	"strings"
 	"time"
 
@@ -53,11 +52,6 @@ type config struct {
 }
 
 func tierConfigs(thorough bool) []config {
-	if s := os.Getenv("C16_CFG"); s != "" { // calibration only: "names:depth"
-		var n, d int
-		fmt.Sscanf(s, "%d:%d", &n, &d)
-		return []config{{allNames[:n], d}}
-	}
 	if thorough {
 		return []config{{allNames[:4], 7}, {allNames[:5], 5}}
 	}
